@@ -138,11 +138,13 @@ func analyse(dump string) (cycle string, states []string) {
 		}
 		states = append(states, g.role+":"+g.state)
 		switch g.state {
-		case "chan send":
+		case "chan send", "select":
+			// a send (plain, or inside a select whose only other case is the server's done channel) on a queue with a single consumer
 			switch {
 			case has("pfcp.(*PfcpServer).NotifySessReport") || has("pfcp.(*PfcpServer).NotifyTransTimeout"):
 				add(g.role, "loop")
-			case has("perio.(*Server).AddPeriodReportTimer") || has("perio.(*Server).DelPeriodReportTimer") || has("perio.(*Server).Close") || g.role == "ticker":
+			case has("perio.(*Server).AddPeriodReportTimer") || has("perio.(*Server).DelPeriodReportTimer") || has("perio.(*Server).Close") || has("perio.(*Server).post") ||
+				(g.role == "ticker" && g.state == "chan send"):
 				add(g.role, "perio")
 			case has("perio.(*PERIOGroup).stopTicker"):
 				add(g.role, "ticker")
@@ -517,7 +519,23 @@ func gen(t *rapid.T) Script {
 	return s
 }
 
+// unexplained counts scripts after which the UPF stopped answering although no
+// wait-for cycle was found: the run is then inconclusive as a whole (exit 2),
+// never a violation and never a silent pass.
+var unexplained []string
+
+func note(s Script, r Result) {
+	if !r.OK && r.Cycle == "" && r.Crash == "" && strings.Contains(r.Inconclusive, "no wait-for cycle") {
+		unexplained = append(unexplained, vcore.JSON(s)+": "+strings.Join(r.States, " "))
+	}
+}
+
 func TestC18(t *testing.T) {
+	defer func() {
+		if len(unexplained) > 0 && !t.Failed() {
+			t.Fatalf("INCONCLUSIVE: %d script(s) left the UPF unresponsive without a wait-for cycle the analysis understands: %v", len(unexplained), unexplained)
+		}
+	}()
 	files, explicit := vcore.ReplayFiles()
 	for _, f := range files {
 		var s Script
@@ -526,6 +544,7 @@ func TestC18(t *testing.T) {
 		}
 		r := child(s)
 		account(s, r)
+		note(s, r)
 		vcore.E.Class("replayed")
 		vcore.Report(t, classify(s, r), s)
 	}
@@ -538,12 +557,14 @@ func TestC18(t *testing.T) {
 		}
 		r := child(s)
 		account(s, r)
+		note(s, r)
 		vcore.Report(t, classify(s, r), s)
 	}
 	vcore.Check(t, vcore.N(6, 18), func(rt *rapid.T) {
 		s := gen(rt)
 		r := child(s)
 		account(s, r)
+		note(s, r)
 		vcore.Report(rt, classify(s, r), s)
 	})
 	_ = ie.Cause
